@@ -454,4 +454,53 @@ Lub(a, b) ==
        IF IsErr(r) THEN r
        ELSE [err |-> "", spec |-> [nodes |-> r.nodes, nil |-> a.nil, ns |-> NsMerge(b.ns, a.ns)]]
 
+(***************************************************************************)
+(* repr of a treespec (README notation: * for leaves, literal-like         *)
+(* containers, NoneIsLeaf / namespace suffixes).  Strings of the universe: *)
+(* see harness/vuniv.py (STRS, class names); addresses in function reprs   *)
+(* are erased by the harness before comparison.                            *)
+(***************************************************************************)
+StrTable == <<"", "A", "a", "ab", "b", "key", "x", "y", "z", "zz", "~">>
+StrOf(v) == IF v + 1 <= Len(StrTable) THEN StrTable[v + 1]
+            ELSE LET n == v - 11 IN "~" \o (IF n < 10 THEN "00" ELSE IF n < 100 THEN "0" ELSE "") \o ToString(n)
+IntRepr(v) == IF v < 0 THEN "-" \o ToString(0 - v) ELSE ToString(v)
+KeyRepr(k) == CASE k[1] = KINT -> IntRepr(k[2])
+                [] k[1] = KSTR -> "'" \o StrOf(k[2]) \o "'"
+                [] k[1] = KFLT -> IF k[2] >= 0 THEN ToString(k[2]) \o ".5"
+                                  ELSE "-" \o ToString(0 - k[2] - 1) \o ".5"
+                [] k[1] = KORD -> "KOrd(" \o ToString(k[2]) \o ")"
+                [] k[1] = KUNORD -> "KUnord(" \o ToString(k[2]) \o ")"
+FactoryRepr(f) == CASE f = 0 -> "None" [] f = 1 -> "<class 'list'>" [] f = 2 -> "<class 'int'>"
+                    [] f = 3 -> "<function fac3>" [] OTHER -> "<harness.vuniv._HistFactory object>"
+ClassName(c) == CASE c = 1 -> "CA" [] c = 2 -> "CB" [] c = 3 -> "CC" [] c = 4 -> "CU"
+                  [] c = 11 -> "NT2" [] c = 12 -> "NT1" [] c = 13 -> "NT0" [] c = 14 -> "NT2b" [] c = 15 -> "NT3"
+                  [] c = 21 -> "os.terminal_size" [] c = 22 -> "posix.times_result" [] OTHER -> "?"
+FieldsOf(c) == CASE c = 11 -> <<"x", "y">> [] c = 12 -> <<"u">> [] c = 13 -> <<>> [] c = 14 -> <<"x", "y">>
+                 [] c = 15 -> <<"p", "q", "r">> [] c = 21 -> <<"columns", "lines">>
+                 [] c = 22 -> <<"user", "system", "children_user", "children_system", "elapsed">> [] OTHER -> <<>>
+RECURSIVE JoinStr(_, _)
+JoinStr(ss, sep) == IF ss = <<>> THEN "" ELSE IF Len(ss) = 1 THEN ss[1] ELSE ss[1] \o sep \o JoinStr(Tail(ss), sep)
+
+RECURSIVE ReprAt(_, _)
+ReprAt(nodes, p) ==
+  LET nd == nodes[p]
+      ks == KidsOf(nodes, p)
+      kids == [i \in DOMAIN ks |-> ReprAt(nodes, ks[i])]
+      items == [i \in DOMAIN ks |-> KeyRepr(nd.keys[i]) \o ": " \o kids[i]]
+      named == [i \in DOMAIN ks |-> FieldsOf(nd.m)[i] \o "=" \o kids[i]]
+  IN CASE nd.kind = NLEAF -> "*"
+       [] nd.kind = NNONE -> "None"
+       [] nd.kind = NTUPLE -> "(" \o JoinStr(kids, ", ") \o (IF nd.arity = 1 THEN "," ELSE "") \o ")"
+       [] nd.kind = NLIST -> "[" \o JoinStr(kids, ", ") \o "]"
+       [] nd.kind = NDICT -> "{" \o JoinStr(items, ", ") \o "}"
+       [] nd.kind = NODICT -> "OrderedDict(" \o (IF nd.arity > 0 THEN "{" \o JoinStr(items, ", ") \o "}" ELSE "") \o ")"
+       [] nd.kind = NDDICT -> "defaultdict(" \o FactoryRepr(nd.m) \o ", {" \o JoinStr(items, ", ") \o "})"
+       [] nd.kind = NDEQUE -> "deque([" \o JoinStr(kids, ", ") \o "]" \o
+                              (IF nd.m # 0 THEN ", maxlen=" \o ToString(nd.m - 1) ELSE "") \o ")"
+       [] nd.kind \in {NNT, NSS} -> ClassName(nd.m) \o "(" \o JoinStr(named, ", ") \o ")"
+       [] nd.kind = NCUSTOM -> "CustomTreeNode(" \o ClassName(nd.cls) \o "[('meta', " \o ToString(nd.m) \o ")], [" \o
+                               JoinStr(kids, ", ") \o "])"
+ReprSpec(spec) == "PyTreeSpec(" \o ReprAt(spec.nodes, Len(spec.nodes)) \o
+                  (IF spec.nil THEN ", NoneIsLeaf" ELSE "") \o
+                  (IF spec.ns # "" THEN ", namespace='" \o spec.ns \o "'" ELSE "") \o ")"
 =============================================================================
